@@ -11,6 +11,7 @@
    result per step:  <outputs>/<connections the bus closed>/<descriptors held>   or "!" (ill-formed event, state unchanged)
                      or "!!" (a well-formed event set the fault flag: never expected, see C15_fuel_suffices)
      outputs joined by '+' ('-' = none):  <rcpt>:M.<from>.<token>.<fds ','-joined or '-'>   <rcpt>:E.<error>.<token>   <rcpt>:D.<token>
+   write <can_fd> <header len> <body len> <fds> <cap>*: the transport write step (Fds/Write.v) for one message
    ledger <same arguments>: final received / closed (with reason) / kernel-dropped lists, for debugging *)
 open Model_fds
 
@@ -103,6 +104,17 @@ let run_ledger (args : string list) : string =
         (show_fds l.g_kdrop) (show_fds (held st)) (show_fds (live_ids st)) st.st_fault
   | _ -> "?bad-args"
 
+(* write <can_fd 0|1> <header len> <body len> <fds> <cap>* : do_writing for one message, one token per successful call *)
+let run_write (args : string list) : string =
+  match args with
+  | can :: h :: bl :: fds :: caps ->
+      let (calls, w) = do_writing (b can) (ni h) (ni bl) (List.map ni (list_of fds)) N0 (List.map ni caps) in
+      String.concat " " (List.map (fun c ->
+        Printf.sprintf "%s:%d:%s" (match c.wr_call with WFdsTwo -> "fds2" | WTwo -> "two" | WBody -> "body")
+          (int_of_n c.wr_bytes) (show_fds c.wr_fds)) calls) ^ Printf.sprintf " written=%d wire=%s" (int_of_n w) (show_fds (wire_fds calls))
+  | _ -> "?bad-args"
+
 let () =
+  reg "write" run_write;
   reg "hist" run_hist;
   reg "ledger" run_ledger
